@@ -1,5 +1,5 @@
 """C06 — transaction and block serialisation round trip, ids."""
-import json, os, re, pickle
+import json, os, re, pickle, signal, threading
 from io import BytesIO
 from harness.core import hexp, REPO, run_driver
 from harness import txgen
@@ -262,7 +262,23 @@ def run_blocks(ctx, chk):
                 n4 = len(b4.transactions)
                 b4.parse_transactions()
                 txids4 = [t.txid for t in b4.transactions]
-                b5 = Block.parse_bytesio(BytesIO(raw), parse_transactions=True)
+                # (a block that does not start at the beginning of its stream, as in a file of several blocks)
+                pre_ = bytes(rng.randrange(256) for _ in range(rng.choice([0, 8, 8, 293])))
+                st5 = BytesIO(pre_ + raw)
+                st5.read(len(pre_))
+                # (a reader that starts at the wrong offset can loop over a garbage count for hours: a wall-clock limit far
+                #  above what a block of this size takes turns that into a reported disagreement instead of a hang)
+                def _late(signum, frame):
+                    raise RuntimeError('Block.parse_bytesio on a pre-positioned stream did not return within 300 s')
+                old_ = signal.signal(signal.SIGALRM, _late) if threading.current_thread() is threading.main_thread() else None
+                if old_ is not None:
+                    signal.alarm(300)
+                try:
+                    b5 = Block.parse_bytesio(st5, parse_transactions=True)
+                finally:
+                    if old_ is not None:
+                        signal.alarm(0)
+                        signal.signal(signal.SIGALRM, old_)
                 txids5 = [t.txid for t in b5.transactions]
                 ctx.count('block:incremental-readers')
                 if txids3 != txids1:
